@@ -49,16 +49,16 @@ const v16UnencodableIsViolation = false
 const v16SeqPerGen = 100 // sequences pushed through one updater before it is replaced by a fresh one
 
 type v16Updater struct {
-	gen   int
-	port  int
-	ch    chan ClientUpdate
-	abort chan struct{}
-	done  chan struct{}
-	sub   *zmq4.Socket
-	nseq  int
-	nrecv int
+	gen     int
+	port    int
+	ch      chan ClientUpdate
+	abort   chan struct{}
+	done    chan struct{}
+	sub     *zmq4.Socket
+	nseq    int
+	nrecv   int
 	lastErr string
-	model map[string]string // topic -> most recent message observed live from this updater
+	model   map[string]string // topic -> most recent message observed live from this updater
 }
 
 var v16U *v16Updater
@@ -172,12 +172,7 @@ func v16Start() *v16Updater {
 	for {
 		_, body, ok := u.recv(10 * time.Second)
 		if !ok {
-			{
-				queued := len(u.ch)
-				u.send(ClientUpdate{"NEWDASTARD", "probe"})
-				_, pb, pok := u.recv(2 * time.Second)
-				v16Infra("handshake generation %d port %d: end marker not received (%d messages received; last receive: %s); %d updates still queued; a further probe message: received=%v %s", u.gen, u.port, u.nrecv, u.lastErr, queued, pok, pb)
-			}
+			v16Infra("handshake generation %d port %d: end marker not received (%d messages received; last receive: %s; %d updates still queued)", u.gen, u.port, u.nrecv, u.lastErr, len(u.ch))
 		}
 		if body == `"`+done+`"` {
 			break
@@ -350,6 +345,7 @@ func v16RunSeq(x *vexp.X, u *v16Updater, alpha []v16Sym, seq []int, prefix strin
 		case bodies[0] != u.model[t]:
 			if bodies[0] == "" && unenc[t] && !v16UnencodableIsViolation {
 				obs["obs_a_unencodable_update_blanks_replay"]++
+				x.Logf("observation: after an update of %s whose state json.Marshal rejects, SENDALL replays the topic with an EMPTY body instead of the most recent published message %s", t, u.model[t])
 				u.model[t] = "" // the updater now holds the blank; later sequences of this generation do not own this topic
 				continue
 			}
@@ -952,8 +948,9 @@ func TestVerifC16(t *testing.T) {
 	r.SetBound(fmt.Sprintf("part a: all update sequences of length 0..%d over {%s} through the real RunClientUpdater, then SENDALL, observed by a ZMQ SUB client; "+
 		"part b: real saveState -> fresh viper -> start-up UnmarshalKey calls (and the real PrepareRun for trigger states) for ServerStatus (7 length pairs x 5 periods x 4 group lists x 2 x 2 x 3 x 2), "+
 		"trigger lists (2^%d flag combinations x %d delays x %d level sets x %d channel lists x 3 list shapes), %d base paths x 2, and tables of SimPulse/Triangle/Lancero/Abaco/Roach configurations and map file names; "+
-		"every execution saves twice (second save with changed values) and restarts after each",
-		maxLen, strings.Join(names, ", "), trigBits, len(v16Durations), len(v16LevelSets), len(v16ChanLists), len(v16BasePaths)))
+		"every execution saves twice (second save with changed values) and restarts after each; "+
+		"part c (package main of cmd/dastard): kill at every crash point of saveState x 4 directory pre-states x 2 boot paths x 1..%d saves, recovery by the real setupViper",
+		maxLen, strings.Join(names, ", "), trigBits, len(v16Durations), len(v16LevelSets), len(v16ChanLists), len(v16BasePaths), maxLen-2))
 
 	// ------------------------------------------------------------------ part (a)
 	// cases: sequences of length < 3 in one case per length; longer ones by their first two symbols
